@@ -12,6 +12,7 @@ Layout:
 * §5  prefix stability along the command loop.
 -/
 import PybtexModel.Model.BibParse
+import PybtexModel.Lemmas.BibReport
 
 namespace Pybtex.Bib
 
@@ -1346,7 +1347,7 @@ theorem finish_sim {N : Nat} {s : St} (ab ab' : Res Unit)
     simp only [Res.st] at h
     cases a with
     | syn e0 =>
-      have hne : handleError s1 e0 = .ok () { s1 with errs := s1.errs ++ [e0] } := by
+      have hne : handleError s1 e0 = .ok () (s1.report e0) := by
         simp [handleError, hs1]
       rcases h with ⟨he, rfl⟩ | ⟨e, tl, s', he, rfl⟩
       · have hst : handleError (setStrict s1) e0 = .fail (.raised e0) (setStrict s1) := by
